@@ -17,9 +17,9 @@ import threading
 ID = "C18"
 LEVEL = "exploration"
 TECHNIQUE = "response-history checker under a controlled line-level scheduler (systematic schedules up to a preemption bound)"
-RULE = ("request kinds {run-step, run-steps(2), run-steps(3), stream-steps, stream-steps aborted by the client after the first chunk, "
-        "run-steps whose settings make a step raise, stream-steps closed before the first chunk}; all 28 unordered pairs (quick: schedules with <=1 preemption for every pair and <=2 for "
-        "3 pairs, sharded; thorough: <=2 for every pair, plus triples with <=1 enumerated); fresh instance and session per schedule. "
+RULE = ("(enumeration modes: all1 = one preemption at every yield point; lock2 = two preemptions, both at lock-related lines or at a handler's run_step call; all2 = two preemptions anywhere) request kinds {run-step, run-steps(2), run-steps(3), stream-steps, stream-steps aborted by the client after the first chunk, "
+        "run-steps whose settings make a step raise, stream-steps closed before the first chunk}; all 28 unordered pairs in modes all1+lock2 (thorough: also all2) and 4 triples (thorough: all 84) in mode lock2; "
+        "real locks of the instance are replaced by scheduler-aware locks; fresh instance and session per schedule. "
         "distinct_nontrivial = distinct (request-kind combination, schedule) in which the second request observed the session between the "
         "first request's lock test and its last step (i.e. the check/lock window was entered).")
 ASSUMPTIONS = ["preemption at line boundaries of source-selected yield points only (no preemption inside a line)", "<=3 concurrent requests, Flask test client instead of a socket server",
@@ -28,22 +28,29 @@ REQUIRED = {"schedules": 150, "schedules_with_preemption": 100, "yield_points_hi
 BUDGET_S = {"quick": 115, "thorough": 2400}
 
 KINDS = ["step", "steps2", "steps3", "stream", "abort", "error", "abort0"]
-PATTERN = re.compile(r"session_state|\.lock\(|\.unlock\(|is_locked\(|run_step\(|try_lock\(")
+PATTERN = re.compile(r"session_state|\.lock\(|\.unlock\(|is_locked\(|run_step\(|try_lock\(|release\(|call_on_close|_lock_guard")
 START, STOP, DT = 1.0, 6.0, 1.0
 
 
 def gen_cases(tier, seed):
     pairs = list(itertools.combinations_with_replacement(range(len(KINDS)), 2))
     cases = []
-    K = 4 if tier == "quick" else 16
-    deep = {(0, 1), (1, 3), (1, 1)} if tier == "quick" else set(pairs)
+    K = 4 if tier == "quick" else 8
     for p in pairs:
         for r in range(K):
-            cases.append(dict(kinds=list(p), stride=r, K=K, depth=2 if p in deep else 1, sample2=6 if tier == "quick" else 0, seed=seed))
+            # mode "all1": every yield point, one preemption; mode "lock2": two preemptions, both at lock-related lines
+            cases.append(dict(kinds=list(p), stride=r, K=K, mode="all1", seed=seed))
+            cases.append(dict(kinds=list(p), stride=r, K=K, mode="lock2", seed=seed))
+            if tier == "thorough":
+                cases.append(dict(kinds=list(p), stride=r, K=K, mode="all2", seed=seed))
+    k = {n: i for i, n in enumerate(KINDS)}
+    triples = [(k["abort"], k["step"], k["steps3"]), (k["stream"], k["step"], k["steps2"]), (k["abort0"], k["steps2"], k["step"]), (k["steps2"], k["steps2"], k["step"])]
     if tier == "thorough":
-        for t in itertools.combinations_with_replacement(range(len(KINDS)), 3):
-            for r in range(4):
-                cases.append(dict(kinds=list(t), stride=r, K=4, depth=1, sample2=10, seed=seed))
+        triples = list(itertools.combinations_with_replacement(range(len(KINDS)), 3)) + triples
+    K3 = 16
+    for t in triples:
+        for r in range(K3):
+            cases.append(dict(kinds=list(t), stride=r, K=K3, mode="lock2", seed=seed))
     return cases
 
 
@@ -52,8 +59,8 @@ def EXHAUSTIVE(tier):
 
 
 _sel = {}
-ATOMIC = re.compile(r"with\s+self\.\w*(lock|guard|mutex)\w*\s*:|\.acquire\(", re.I)
-_tl = threading.local()
+# lock-related lines plus the handlers' calls of run_step (one per step of a multi-step request)
+LOCKPAT = re.compile(r"\.lock\(|\.unlock\(|is_locked\(|try_lock\(|release\(|call_on_close|_lock_guard|\[\"lock\"\]|\.run_step\(")
 
 
 def worker_init():
@@ -67,40 +74,19 @@ def worker_init():
         for name, f in vars(cls).items():
             if callable(f):
                 funcs.append(f)
-    # functions that hold a REAL lock are atomic for the scheduler: a thread parked inside one would block the
-    # others on that lock, a state the program cannot be observed in at line granularity anyway
-    _sel["atomic"] = []
-    for cls in (S.BptkServer, S.InstanceManager, B):
-        for name, f in list(vars(cls).items()):
-            if not callable(f) or getattr(f, "_verif_atomic", False):
-                continue
-            try:
-                src = inspect.getsource(getattr(f, "__wrapped__", f))
-            except Exception:
-                continue
-            if ATOMIC.search(src):
-                def make(f):
-                    def atomic(*a, **k):
-                        _tl.depth = getattr(_tl, "depth", 0) + 1
-                        try:
-                            return f(*a, **k)
-                        finally:
-                            _tl.depth -= 1
-                    atomic._verif_atomic = True
-                    atomic.__wrapped__ = getattr(f, "__wrapped__", f)
-                    return atomic
-                setattr(cls, name, make(f))
-                _sel["atomic"].append("%s.%s" % (cls.__name__, name))
-    codes, lines = [], set()
+    codes, lines, locklines = [], set(), set()
     for c in all_code_objects(*funcs):
         hit = False
         for (_, _, ln) in c.co_lines():
-            if ln and PATTERN.search(linecache.getline(c.co_filename, ln) or ""):
+            src = linecache.getline(c.co_filename, ln) if ln else ""
+            if ln and PATTERN.search(src or ""):
                 lines.add((c.co_filename, ln))
                 hit = True
+                if LOCKPAT.search(src):
+                    locklines.add((c.co_name, ln))
         if hit:
             codes.append(c)
-    _sel["codes"], _sel["lines"] = codes, lines
+    _sel["codes"], _sel["lines"], _sel["locklines"] = codes, lines, locklines
 
 
 def do_request(client, iid, kind, out, idx):
@@ -168,7 +154,9 @@ def one_schedule(kinds, schedule):
             calls.append((getattr(tl, "idx", -1), before, self.session_state["step"] if self.session_state else None, ok))
     B.run_step = run_step
     out = {}
-    sched = LineScheduler(_sel["codes"], expected=len(kinds), schedule=schedule, line_filter=lambda code, line: (code.co_filename, line) in _sel["lines"] and not getattr(_tl, "depth", 0))
+    sched = LineScheduler(_sel["codes"], expected=len(kinds), schedule=schedule, line_filter=lambda code, line: (code.co_filename, line) in _sel["lines"])
+    from vlib.linesched import model_locks
+    modelled = model_locks(sched, inst, app, app._instance_manager)
     try:
         with sched:
             threads = []
@@ -290,19 +278,20 @@ def run_case(case):
         return "held", None, sched
     st, w, base = attempt([])
     if st == "held":
-        alts = alternatives(base.trace)
+        only = _sel["locklines"] if case["mode"] == "lock2" else None
+        alts = alternatives(base.trace, only)
         mine = [a for i, a in enumerate(alts) if i % case["K"] == case["stride"]]
         for (d, t) in mine:
             st, w, s1 = attempt([(d, t)])
             if st != "held":
                 break
-            second = [(d2, t2) for (d2, t2) in alternatives(s1.trace) if d2 > d]
-            if case["depth"] < 2:
-                second = rng.sample(second, min(len(second), case["sample2"])) if case["sample2"] else []
-            for (d2, t2) in second:
-                st, w, _ = attempt([(d, t), (d2, t2)])
-                if st != "held":
-                    break
+            if case["mode"] in ("lock2", "all2"):
+                for (d2, t2) in alternatives(s1.trace, only):
+                    if d2 <= d:
+                        continue
+                    st, w, _ = attempt([(d, t), (d2, t2)])
+                    if st != "held":
+                        break
             if st != "held":
                 break
     if st == "violated":
